@@ -778,6 +778,24 @@ int main(int argc, char **argv) {
   else if (mode == "huge") { vfh::Rng r(s + 1313); run_huge(r, R, n); }
   else if (mode == "legacy") { vfh::Rng r(s + 13131); run_legacy(r, R, n); }
   else if (mode == "legacyx") { vfh::Rng r(s + 131313); run_legacyx(r, R, n); }
+  else if (mode == "probe") {
+    // replay of one HistogramNew witness: --min --max --nbins --periodic 0|1 --v --w
+    Cfg c{A.real("min", 0), A.real("max", 10), (Index)A.num("nbins", 10), A.num("periodic", 1) != 0};
+    double v = A.real("v", -10), w = A.real("w", 1);
+    HistogramNew probe;
+    probe.setPeriodic(c.periodic);
+    probe.Initialize(c.min, c.max, c.nbins);
+    Cls cl = classify(c, step_of(c, probe.getStep()), v);
+    ForkRes f = run_forked([&]() { return probe_child(c, {}, v, w, cl.huge); });
+    R.eval("probe");
+    R.nontrivial(1); R.nontrivial(2);
+    J wit = cfgj(c);
+    wit.d("v", v).d("w", w);
+    std::string key = cl.huge ? "histnew/huge-value-cast" : cl.trigger ? "histnew/periodic-wrap-index" : "histnew/bin-content";
+    if (!f.ok) R.violation(key, "process aborted (" + status_str(f) + "): " + report_line(f.err), wit);
+    else if (f.result != "OK") R.violation(key, f.result, wit);
+    else R.sample(wit.s("result", "OK"));
+  }
   else { std::cerr << "unknown mode\n"; return 3; }
   R.summary();
   return 0;
